@@ -157,6 +157,16 @@ func c15Run(w *core.W, q *dns.Msg, envs [][]*model.Rec, tsig bool, f c15Fault, r
 			}
 			if f.kind == "unsign" && i == f.at {
 				// the envelope goes out without TSIG; the chain continues from the MAC it would have carried
+			} else if f.kind == "emptymac" && i >= f.at {
+				// a forger without the key: from this envelope on the content is altered and the TSIG
+				// carries a MAC of zero octets (so does the running MAC of whoever accepted it)
+				forged := append([]byte(nil), wire...)
+				if p := 12 + len(mustName(q.Question[0].Name).Wire()) + 4 + 3; p < len(forged) && i == f.at {
+					forged[p] ^= 0x01
+				}
+				t2 := &model.TSIG{KeyName: keyName, Algorithm: algName, TimeSigned: now, Fudge: 300, OrigID: binary.BigEndian.Uint16(forged), MAC: []byte{}}
+				binary.BigEndian.PutUint16(forged[10:], binary.BigEndian.Uint16(forged[10:])+1)
+				wire = append(forged, t2.RRWire()...)
 			} else {
 				wire = out
 			}
@@ -451,7 +461,7 @@ func c15Case(w *core.W, j int) {
 	// faults
 	faults := []string{"first-not-soa", "rcode", "id"}
 	if tsig {
-		faults = append(faults, "alter", "reorder", "unsign", "wrongkey")
+		faults = append(faults, "alter", "reorder", "unsign", "wrongkey", "emptymac")
 	}
 	for _, c := range []uint64{comps[0], comps[len(comps)-1], comps[len(comps)/2]} {
 		ne := len(compose(s.recs, c))
@@ -508,7 +518,7 @@ func init() {
 	core.Register(&core.Monitor{
 		ID: "C15", Level: "fault_enumeration", Plan: plan, Run: run, Race: true, Terminates: true, MaxParallel: 16, CaseTimeout: 300e9,
 		Rule: "the harness is the primary: AXFR, IXFR up-to-date, IXFR AXFR-style and incremental IXFR (1..3 difference sequences) streams of model records, all 2^(n-1) envelope compositions for n<=6 records (sampled above, always incl. all-in-one, one-per-envelope, SOA alone first/last), with and without an independently computed RFC 8945 MAC chain; " +
-			"faults: first record not SOA, error RCODE / foreign ID / altered / unsigned / wrongly keyed / reordered envelope at every envelope index (<=6, else first and last three), extra envelope after the end, EOF at every octet (transfers <= 260 octets) or sampled; " +
+			"faults: first record not SOA, error RCODE / foreign ID / altered / unsigned / wrongly keyed / reordered envelope, or envelopes forged with a zero-length MAC from that index on, at every envelope index (<=6, else first and last three), extra envelope after the end, EOF at every octet (transfers <= 260 octets) or sampled; " +
 			"oracle: delivered records == transmitted up to the closing SOA (RFC 5936 / RFC 1995), channel and connection closed exactly once, every fault run ends with an Error envelope; non-trivial = distinct (stream kind, envelope sizes, fault, position)",
 		Assumptions: []string{"envelopes are signed at the real current time with fudge 300, far from the window boundary"},
 		MinObserved: []string{"transfers_good", "transfers_faulty", "compositions", "exhaustive_eof_sweeps"},
